@@ -359,9 +359,11 @@ def instances(tier, seed):
     if tier == 'quick':
         must = [c for c in combos if c['init'] == 'full' and c['body_refs'] in (1, 4) and c['body'] in ('fit', 'fit+1', 'empty')
                 and c['kind'] == 'int' and c['src'] == 'std' and c['dest'] == 'std']
-        pick = rnd.sample(combos, 240) + must
+        pick = rnd.sample(combos, 200) + must
     else:
         pick = combos if len(combos) <= 3000 else rnd.sample(combos, 3000)
+    # the expensive header class first: the pool then ends on cheap instances instead of waiting for a late expensive one
+    pick = sorted(pick, key=lambda c: -(c['fee_l'] + c['gl']))
     seen = set()
     for c in pick:
         k = repr(sorted(c.items()))
@@ -394,7 +396,7 @@ def twins(tier, seed):
 INSTANCE_TIMEOUT = {'quick': 200, 'thorough': 900}
 BOUNDS = {
     'messages': 'internal / external-in / external-out; addr_std, anycast depth 5, addr_none, addr_extern of 0/9/64/256/511 bits; Grams length classes 0/1/2/3/15 bytes; one Bool flag symbolic per instance; '
-                '0..2 extra currencies; 6 state-init shapes; body of 0, 1, room-2..room+2, 1023 bits with 0/1/2/4 references (quick: 240 seeded combinations, plus maximal headers with anycast depth 2..6 (thorough 1..10) around the cell capacity '
+                '0..2 extra currencies; 6 state-init shapes; body of 0, 1, room-2..room+2, 1023 bits with 0/1/2/4 references (quick: 200 seeded combinations, plus maximal headers with anycast depth 2..6 (thorough 1..10) around the cell capacity '
                 'plus the full-state-init boundary cases; thorough: 3000)',
     'values': 'account ids, workchains, amounts within their length class, times, flags, cell contents: symbolic',
     'wrappers': 'StateInit (5 shapes), CurrencyCollection (5 Grams classes x 0..2 extra currencies), WalletV3/V4Data, HighloadWalletData without and with one old query, '
